@@ -15,15 +15,17 @@ type VerifBound struct {
 }
 
 // VerifBindForC13 schedules one statefulset pod requesting k ranges (k = 0 means no request_ip_range) on topology
-// topo whose pools carry VLAN id vlan (may be symbolic) through the real Filter and Bind and reports the outcome.
-func VerifBindForC13(topo, k int, vlan uint16) *VerifBound {
-	floatingip.VPoolVlanOverride = &vlan
+// topo whose pools carry the VLAN ids vlans (pool i gets vlans[i mod len]; may be symbolic) through the real Filter and Bind and reports the outcome.
+func VerifBindForC13(topo, k int, vlans ...uint16) *VerifBound {
+	floatingip.VPoolVlanOverride = vlans
 	defer func() { floatingip.VPoolVlanOverride = nil }()
 	w := vpNewWorld(topo, false)
 	if err := w.configure(); err != nil {
 		return nil
 	}
 	w.setStatefulSet(2)
+	// requested addresses alternate between the ends of the address list so that several pools are involved
+	order := []string{w.ips[0], w.ips[len(w.ips)-1], w.ips[1]}
 	ranges := ""
 	if k > 0 {
 		ranges = "["
@@ -31,7 +33,7 @@ func VerifBindForC13(topo, k int, vlan uint16) *VerifBound {
 			if i > 0 {
 				ranges += ","
 			}
-			ranges += `["` + w.ips[i] + `"]`
+			ranges += `["` + order[i] + `"]`
 		}
 		ranges += "]"
 	}
@@ -50,7 +52,7 @@ func VerifBindForC13(topo, k int, vlan uint16) *VerifBound {
 	key := vpKeyOf(w.pods["ss-0"])
 	want := w.ips
 	if k > 0 {
-		want = w.ips[:k]
+		want = order[:k]
 	}
 	for _, ip := range want {
 		for _, e := range d {
